@@ -96,7 +96,8 @@ def handleOps2 (op : String) (args impl : List String) : Verdict :=
             let ma := Ops.mergeItems xa xb
             let g' : Graph := { items := [], regions := Graph.mergeDefs (·.id) ga.regions gb.regions,
                                 styles := Graph.mergeDefs (·.id) ga.styles gb.styles }
-            let m := s!"{encItems ma} {encItems xb} {encGraph g'} {encGraph gb}"
+            -- … and the argument once more, after a further merge into the same receiver
+            let m := s!"{encItems ma} {encItems xb} {encGraph g'} {encGraph gb} {encItems xb} {encGraph gb}"
             compare m (joinToks impl) fun _ =>
               -- property predicate: A' = stable ordered union, B unchanged, maps = union with A winning
               match decItems impl with
@@ -106,7 +107,8 @@ def handleOps2 (op : String) (args impl : List String) : Verdict :=
                   match decGraph s2 with
                   | some (ha, s3) =>
                     match decGraph s3 with
-                    | some (hb, []) =>
+                    | some (hb, tail) =>
+                      (tail == (s!"{encItems xb} {encGraph gb}").splitOn " ") &&
                       let ids := ((ga.regions ++ gb.regions).map (·.2.id)).eraseDups
                       let sids := ((ga.styles ++ gb.styles).map (·.2.id)).eraseDups
                       Spec.orderOk (xa ++ xb) ya && yb == xb && sameGraph hb gb &&
